@@ -82,6 +82,7 @@ func (r rawPeer) Close() { r.p.Close() }
 
 // typedPeer reads through a pump goroutine: a receive context that expires would poison a WebSocket transport.
 type typedPeer struct {
+	smu  sync.Mutex // a lime.Transport is not safe for concurrent Sends (the channel's send mutex provides that)
 	t    lime.Transport
 	ch   chan map[string]interface{}
 	errc chan error
@@ -116,6 +117,8 @@ func (p *typedPeer) Send(m map[string]interface{}) error {
 	}
 	ctx, cancel := context.WithTimeout(context.Background(), 5*time.Second)
 	defer cancel()
+	p.smu.Lock()
+	defer p.smu.Unlock()
 	return sendAny(ctx, p.t, v)
 }
 func (p *typedPeer) Recv(t time.Duration) (map[string]interface{}, error) {
